@@ -1,6 +1,7 @@
 import HexProofs.Manager.HA
 import HexProofs.Manager2.HATf
 import HexProofs.Manager2.HAFill
+import HexProofs.Manager2.FillReadingsHA
 import HexProofs.Lib.IntInst
 import HexProps.C03
 /-
@@ -8,7 +9,9 @@ C11 – Heikin-Ashi conversion follows its recurrence under every append schedul
 Proved for every float carrier `F`.  Full strength without a timeframe (any schedule, starting
 from zero, one or many candles) – `schedule` – with a collapsing timeframe – `schedule_tf`,
 `with_timeframe` (= the former `with_timeframe_FULL`, now a theorem for every positive timeframe) –
-and with timeframe + gap filling – `schedule_tf_fill`, `with_timeframe_fill` (reading-free input).
+and with timeframe + gap filling – `schedule_tf_fill`, `with_timeframe_fill` (reading-free input) and, for raw input candles that
+already CARRY indicator readings, `with_timeframe_fill_full` (= `with_timeframe_fill_FULL`, now a theorem for every positive
+timeframe), `schedule_tf_fill_readings`; converted candles carry no readings (`converted_carry_no_readings`).
 -/
 namespace Hex.C11
 open Hex Hex.C03
@@ -185,9 +188,9 @@ theorem merge_restores_raw (b x : Candle F) (p : Option (Candle F)) (hb : b.clea
 
 /-- full-strength statement with a collapsing timeframe AND `timeframe_fill`: the candles are the
 Heikin-Ashi fold over the gap-filled resampling (`spec` = the gap-filled bucket list; C12 says what
-it is).  Proved below (`with_timeframe_fill`) for input candles that carry no readings; NOT proved
-for raw input candles that already carry indicator readings (the gap-fill lemmas of
-HexProofs/Framework/Fill.lean are stated for reading-free streams). -/
+it is).  Proved below: `with_timeframe_fill` for input candles that carry no readings, and
+`with_timeframe_fill_full` for raw input candles that already carry indicator readings (every positive timeframe;
+HexProofs/Manager2/FillReadings*.lean re-prove the gap-fill lemmas without the reading-free hypothesis). -/
 def with_timeframe_fill_FULL (tf : Int) : Prop :=
   ∀ (init : List (Candle F)) (chunks : List (List (Candle F))) (spec : List (Candle F)),
     RawStream (init ++ chunks.flatten) → RawPlain (init ++ chunks.flatten) →
@@ -249,5 +252,35 @@ example : RawStream gapDemo ∧ RawPlain gapDemo ∧ ∀ c ∈ gapDemo, Plain c 
 example : (runSchedule (cfgFillHA 60) [] [[gapDemo[0]], [gapDemo[1]]]).toOption.map
       (fun m => m.candles.map (fun c => (c.ts, c.tag, c.v)))
     = some [(some 120, true, .int 10), (some 180, true, .int 0), (some 240, true, .int 0), (some 300, true, .int 5)] := rfl
+
+/-- **`with_timeframe_fill_FULL` for every positive timeframe**: raw input candles may carry any
+indicator readings (conversion and merging wipe them, nothing reads them). -/
+theorem with_timeframe_fill_full (tf : Int) (htf : 0 < tf) : with_timeframe_fill_FULL (F := F) tf :=
+  fun init chunks spec h hp hspec =>
+    withTimeframeFillFULL tf htf init chunks spec ⟨h.stamped, h.plain, h.sorted⟩ hp hspec
+
+/-- **Every append schedule with timeframe + gap filling + Heikin-Ashi, input candles carrying any
+readings** (`schedule_tf_fill` without its `Plain` hypothesis). -/
+theorem schedule_tf_fill_readings (tf : Int) (htf : 0 < tf) (init : List (Candle F)) (chunks : List (List (Candle F)))
+    (h : RawStream (init ++ chunks.flatten)) (hp : RawPlain (init ++ chunks.flatten)) :
+    runSchedule (cfgFillHA tf) init chunks
+      = .ok { cfg := cfgFillHA tf, candles := haSpec (fillSpec tf (init ++ chunks.flatten)) } ∧
+    fillMissing tf (resample tf (init ++ chunks.flatten)) = .ok (fillSpec tf (init ++ chunks.flatten)) :=
+  fill_ha_schedule_readings tf htf init chunks ⟨h.stamped, h.plain, h.sorted⟩ hp
+
+/-- after conversion no candle carries a reading -/
+theorem converted_carry_no_readings (xs : List (Candle F)) :
+    ∀ z ∈ haSpec xs, z.inds = [] ∧ z.subs = [] ∧ z.tag = true := haSpec_noEntries xs
+
+/-- non-vacuity: a two-bucket gap, three input candles carry `"X" ↦ 5` -/
+example : RawStream readingsDemo ∧ RawPlain readingsDemo ∧ ¬ (∀ c ∈ readingsDemo, Plain c) :=
+  ⟨⟨by decide, by decide, by decide⟩, by unfold RawPlain; decide, by decide⟩
+
+example : (runSchedule (cfgFillHA 60) [readingsDemo[0]]
+      [[readingsDemo[1], readingsDemo[2]], [], [readingsDemo[3]], [readingsDemo[4]]]).toOption.map
+      (fun m => m.candles.map (fun c => (c.ts, c.tag, numI c.v, c.inds.length, c.subs.length)))
+    = some [ (some 120, true, 30, 0, 0), (some 180, true, 0, 0, 0), (some 240, true, 0, 0, 0),
+             (some 300, true, 5, 0, 0), (some 360, true, 3, 0, 0), (some 420, true, 1, 0, 0) ] := by
+  decide +kernel
 
 end Hex.C11
